@@ -267,7 +267,7 @@ fn continuous_doors(r: &mut Rng) -> Case {
     }
     let text_model = gen_model::build(m.objective().objective_type.clone(), m.objective().rhs.clone(), m.constraints().clone(), &ds);
     let mut pr = r.fork();
-    let text = Printer { r: &mut pr, sp: Spelling { aliases: false, implicit_mul: r.chance(1, 2), redundant_parens: r.chance(1, 2), named_consts: false }, consts: vec![] }.program(&text_model);
+    let text = Printer { r: &mut pr, sp: Spelling { aliases: false, implicit_mul: r.chance(1, 2), redundant_parens: r.chance(1, 2), named_consts: false, minimal_parens: false }, consts: vec![] }.program(&text_model);
     let guard = |f: &mut dyn FnMut() -> (String, Option<f64>)| -> (String, Option<f64>) {
         std::panic::catch_unwind(std::panic::AssertUnwindSafe(|| f())).unwrap_or(("(panic)".to_string(), None))
     };
@@ -369,7 +369,7 @@ fn one(m: &Model, ds: &[VarDecl], r: &mut Rng, i: usize) -> Vec<Case> {
     }
     // (b) the doors
     let builder_lin = Linearizer::linearize(bm.clone());
-    let sp = Spelling { aliases: r.chance(1, 2), implicit_mul: r.chance(1, 2), redundant_parens: r.chance(1, 2), named_consts: false };
+    let sp = Spelling { aliases: r.chance(1, 2), implicit_mul: r.chance(1, 2), redundant_parens: r.chance(1, 2), named_consts: false, minimal_parens: r.chance(1, 2) };
     let mut pr = r.fork();
     // the text declares every builder variable (also the unused one)
     let text_model = gen_model::build(m.objective().objective_type.clone(), m.objective().rhs.clone(), m.constraints().clone(), ds);
@@ -812,7 +812,7 @@ fn history_cases(r: &mut Rng) -> Vec<Case> {
             let (ot, oe) = h.abs_obj.clone().unwrap_or((OptimizationType::Satisfy, Exp::Number(0.0)));
             let tm_abs = gen_model::build(ot.clone(), rename(&oe), cons, &ds);
             let mut pr = r.fork();
-            let text = Printer { r: &mut pr, sp: Spelling { aliases: false, implicit_mul: false, redundant_parens: false, named_consts: false }, consts: vec![] }.program(&tm_abs);
+            let text = Printer { r: &mut pr, sp: Spelling { aliases: false, implicit_mul: false, redundant_parens: false, named_consts: false, minimal_parens: false }, consts: vec![] }.program(&tm_abs);
             if let Ok(tm) = RoocParser::new(text.clone()).parse_and_transform(vec![], &IndexMap::new()) {
                 let body = |m: &Model| format!("{} {}", m.constraints().iter().map(sx::constraint).collect::<Vec<_>>().join(" "), strip_usage(&sx::domain(m.domain())));
                 let mut c = Case::default();
